@@ -6,7 +6,7 @@ package migration
 // bytes are arbitrary (the remaining bytes are fixed to 0x5a; k = 32 is every address).
 //
 //verif:run quick k=3
-//verif:run thorough k=32
+//verif:run thorough k=10
 //verif:timeout 300
 func VerifC19MigrationRoundTrip(k int) {
 	var addr [Ed25519AddressSize]byte
